@@ -21,6 +21,19 @@ package blobstore
 //@ func (*batchedStoreBlobAccess).flushLocked
 //@   props C09
 //@   ensures a-recorded-failure-stays-recorded: old(ba.flushError) != nil ==> ba.flushError != nil
+//@   loop 0 invariant flushsteps(1) == 0 && flushsteps(2) == 0
+//@   at call FindMissing#1 ghostset flushsteps[1] = ite(r1 != nil, 1, 0)
+//@   at call Wait#1 ghostset flushsteps[2] = ite(r0 != nil, 1, 0)
+//@   ensures a-failed-existence-check-fails-the-batch: flushsteps(1) == 1 ==> ba.flushError != nil
+//@   ensures a-failed-upload-fails-the-batch: flushsteps(2) == 1 ==> ba.flushError != nil
+//@   ensures the-batch-is-empty-afterwards: len(ba.pendingPutOperations) == 0
+//@ ghost map flushsteps(int) int zero
+//@ func (*batchedStoreBlobAccess).flushLocked$2$1
+//@   props C09
+//@   at call Put#1 ghostset flushsteps[3] = ite(r0 != nil, 1, 0)
+//@   at call Release#1 ghostset flushsteps[4] = flushsteps(4) + 1
+//@   ensures a-failed-write-of-a-blob-is-reported-to-the-group: flushsteps(3) == 1 ==> r0 != nil
+//@   ensures the-upload-slot-is-given-back-exactly-once: flushsteps(4) == 1
 // A write that arrives after a batch failed is refused, and the failure stays
 // recorded until the final flush has reported it (it is never consumed by the
 // Put that happens to see it first).
